@@ -2,6 +2,7 @@ package tlv
 
 import (
 	"bytes"
+	"encoding/asn1"
 	"fmt"
 	"strings"
 
@@ -55,16 +56,28 @@ func (node TlvSimpleNode) stringWithIndent(indent int) string {
 	sb.WriteString(indentString(indent))
 	sb.WriteString(fmt.Sprintf("%02x: %x", node.tag, node.value))
 	if node.tag == 0x06 {
-		// special handling for ASN1 OIDs
-		tmpOid := oid.DecodeAsn1objectId(node.value)
-		tmpOidDesc := oid.OidDesc(tmpOid)
-		sb.WriteString(fmt.Sprintf(" [%s: %s]", tmpOid.String(), tmpOidDesc))
+		// special handling for ASN1 OIDs (NB the value may not be a valid OID, as it comes straight from the decoded data)
+		if tmpOid, ok := decodeOidNoPanic(node.value); ok {
+			tmpOidDesc := oid.OidDesc(tmpOid)
+			sb.WriteString(fmt.Sprintf(" [%s: %s]", tmpOid.String(), tmpOidDesc))
+		}
 	} else if utils.PrintableBytes(node.value) {
 		// special handling for printable bytes
 		sb.WriteString(fmt.Sprintf(" [%s]", string(node.value)))
 	}
 	sb.WriteString("\n")
 	return sb.String()
+}
+
+// decodes the raw OID bytes, reporting (rather than panicking on) malformed data
+func decodeOidNoPanic(data []byte) (out asn1.ObjectIdentifier, ok bool) {
+	defer func() {
+		if r := recover(); r != nil {
+			out, ok = nil, false
+		}
+	}()
+
+	return oid.DecodeAsn1objectId(data), true
 }
 
 func (node TlvSimpleNode) String() string {
